@@ -17,7 +17,7 @@ RULE = ("random histories of <=12 editing operations (construct incl. stripped c
 ASSUMPTIONS = ["string semantics of each operation as coded in rv/model/textmodel.py (Python str methods, "
                "cell-based cropping per the reference width table)",
                "styles of characters newly created by padding, truncation and tab expansion are not constrained"]
-REQUIRED = ["mon.plain", "mon.len", "mon.char_styles", "mon.style_only_ops", "mon.aliasing"]
+REQUIRED = ["mon.plain", "mon.len", "mon.char_styles", "mon.style_only_ops", "mon.aliasing", "mon.len_unobserved", "mon.unobserved_history_end"]
 MIN_NONTRIVIAL = {"quick": 3000, "thorough": 100000}
 
 _console = None
